@@ -355,6 +355,9 @@ type faultTransport struct {
 	// untrusted is the address of an https server whose certificate chain is unknown to the
 	// client ("tls": the handshake fails with an x509 error)
 	untrusted string
+	// denyAll: a standing condition rather than a fault at a position — every enriching and
+	// authorizing webhook of the provisioner answers allow=false, whenever it is asked
+	denyAll bool
 }
 
 func (t *faultTransport) RoundTrip(req *http.Request) (*http.Response, error) {
@@ -374,6 +377,9 @@ func (t *faultTransport) RoundTrip(req *http.Request) (*http.Response, error) {
 		kind = "notify"
 	}
 	req = req.Clone(req.Context())
+	if f.Kind == "" && t.denyAll && (kind == "enrich" || kind == "authorize") {
+		f = Fault{Kind: "deny", Sub: "deny"}
+	}
 	switch f.Kind {
 	case "":
 		t.rec.log(kind, "ok", req.URL.Path)
